@@ -1138,6 +1138,16 @@ def directed_shapes() -> dict:
     types.append(_S(ns, "OldSvc", [_F(_U8, "x")], [], deprecated=True))
     types.append(_T(ns, "Ver", [_F(_U8, "x")], major=0, minor=1))
     types.append(_T(ns, "Ver", [_F(_U8, "x"), _F(_U8, "y")], major=255, minor=255))
+    # several versions of ONE data type used side by side (struct, union, array elements, request vs response); minor versions
+    # under one major must be bit-compatible, so Rec 1.0 / 1.1 share a body
+    ver_a, ver_b = types[-2], types[-1]
+    rec10 = _T(ns, "Rec", [_F(_U8, "x")], major=1, minor=0)
+    rec11 = _T(ns, "Rec", [_F(_U8, "x")], major=1, minor=1)
+    rec20 = _T(ns, "Rec", [_F(_U8, "x"), _F({"t": "bool"}, "more")], major=2, minor=0)
+    types += [rec10, rec11, rec20]
+    types.append(_T(ns, "Migration", [_F(_ref(rec10), "old"), _F(_ref(rec11), "newer"), _F(_ref(ver_a), "va"), _F(_ref(ver_b), "vb")]))
+    types.append(_T(ns, "MigrationU", [_F(_ref(rec11), "a"), _F(_ref(rec20), "b"), _F({"t": "varr", "elem": _ref(rec10), "cap": 2, "incl": True}, "c")], union=True))
+    types.append(_S(ns, "Upgrade", [_F(_ref(rec11), "req")], [_F({"t": "farr", "elem": _ref(rec20), "n": 2}, "rsp")]))
     types.append(_T(ns, "TwoBools", [_F({"t": "bool"}, "p"), _F({"t": "bool"}, "q")], union=True))
     types.append(_T(ns, "EmptyWithPort", [], port=96))
     types.append(_T(ns, "OnlyPadding", [{"k": "void", "bits": 8}]))
